@@ -35,7 +35,25 @@ def events(lines):
     return ev
 
 
-def run_sol_cases(cases, exes, nproc=14, timeout=40):
+def exact_prefix(raw):
+    """Lines of an implementation run up to (excluding) the first command during which a numeric trap occurred
+    (division by zero, sqrt of a negative number, arithmetic/comparison on a value derived from those).
+    From there on the run has left exact field arithmetic: 0 * NaN is 0 for a structurally absent sparse entry and
+    NaN for a stored one, so the dense-denotation model no longer applies.  Returns (lines, trapped)."""
+    keep, cur = [], []
+    for l in raw:
+        if l.startswith("#ev "):
+            ev = [int(x) for x in l.split()[1:]]
+            if any(ev[:5]):
+                return keep, True
+            keep += cur
+            cur = []
+        elif not l.startswith("#"):
+            cur.append(l)
+    return keep + cur, False
+
+
+def run_sol_cases(cases, exes, nproc=14, timeout=12):
     """cases: list of {name, lines, meta{be}}.  Two passes: the implementation first (it reports the AMD
     permutation it chose), then the model with that permutation as an input.
     -> (impl_raw, impl, model, mismatches, errors)"""
@@ -67,11 +85,20 @@ def run_sol_cases(cases, exes, nproc=14, timeout=40):
             else:
                 lines.append(l)
         mcases.append({"name": c["name"], "lines": lines, "meta": c["meta"]})
-    model, e2 = run_chunks([DRIVER], mcases, nproc, timeout)
+    model, e2 = run_chunks([DRIVER], mcases, nproc, 3 * timeout)
     errs += [("model", x) for x in e2]
-    impl = strip_comments(impl_raw)
+    impl, trapped = {}, set()
+    for k, v in impl_raw.items():
+        impl[k], tr = exact_prefix(v)
+        if tr:
+            trapped.add(k)
     # a case lost to a timeout on either side is not compared (it is reported in the evidence, never as a violation)
     lostnames = {x["name"] for _, x in errs if "timeout" in x.get("why", "")}
     live = [c for c in cases if c["name"] not in lostnames]
-    bad = compare(live, impl, strip_comments(model))
+    mod = strip_comments(model)
+    for k in trapped:
+        if k in mod:
+            mod[k] = mod[k][:len(impl[k])]
+    bad = compare(live, impl, mod)
+    run_sol_cases.last_trapped = trapped
     return impl_raw, impl, model, bad, errs
